@@ -84,7 +84,7 @@ def random_case(rng, tier):
     for action in schedule:
         if action['act'] == 'complete':
             action.update(fut=rng.randrange(max(program.get('n_futures', 1), 1)), how=rng.choice(['value', 'value', 'exc']), v='x')
-    return {'program': program, 'schedule': schedule, 'opts': {}}
+    return {'program': program, 'schedule': schedule, 'opts': {'cleanup_raises': True} if rng.random() < 0.25 else {}}
 
 
 def shrink(case):
